@@ -947,8 +947,8 @@ class SP(Robot):
                 bottom_plate_pos, top_plate_pos)
         return np.copy(self.lengths), bottom_plate_pos, top_plate_pos
 
-    def _FKSolve(self, L : 'np.ndarray[float]', plate_pos : tm = None, 
-            protect : bool = False):
+    def _FKSolve(self, L : 'np.ndarray[float]', plate_pos : tm = None,
+            protect : bool = False, _fallback : bool = False):
         """
         Solve FK using an older version of python solver, no jacobian used.
         
@@ -987,15 +987,21 @@ class SP(Robot):
         nLens = self.getLens()
         for j in range(6):
             if abs(abs(L[j]) - abs(nLens[j])) > 0.00001 or not self.validate(True):
-                return self._FKRaphson(L, plate_pos, protect)
+                if _fallback:
+                    #Both solvers failed: reset to the neutral pose instead of calling back
+                    self.fail_count += 1
+                    self.IK(top_plate_pos = plate_pos @ self._nominal_plate_transform,
+                            bottom_plate_pos = plate_pos, protect = True)
+                    return self.getBottomT(), self.getTopT()
+                return self._FKRaphson(L, plate_pos, protect, _fallback = True)
         #If not "Protected" from recursion, call IK.
         if not protect:
             self.IK(protect = True)
         return plate_pos, sol
 
 
-    def _FKRaphson(self, L : 'np.ndarray[float]', 
-            bottom_plate_pos : tm = None, protect : bool = False):
+    def _FKRaphson(self, L : 'np.ndarray[float]',
+            bottom_plate_pos : tm = None, protect : bool = False, _fallback : bool = False):
         """
         Solve FK using Newton Raphson method.
 
@@ -1074,7 +1080,12 @@ class SP(Robot):
             if self.debug:# pragma: no cover
                 disp("Raphson FK Failed due to: " + str(e))
             self.fail_count+=1
-            return self._FKSolve(L, bottom_plate_pos_backup, protect)
+            if _fallback:
+                #Both solvers failed: reset to the neutral pose instead of calling back
+                self.IK(top_plate_pos = bottom_plate_pos_backup @ self._nominal_plate_transform,
+                        bottom_plate_pos = bottom_plate_pos_backup, protect = True)
+                return self.getBottomT(), self.getTopT()
+            return self._FKSolve(L, bottom_plate_pos_backup, protect, _fallback = True)
 
     """
     Validation and Corrective Action Helpers
